@@ -22,6 +22,17 @@ type vc09Op struct {
 	run       func(s *vc09Store) error
 	apply     func(m *vc09Model)
 	more      bool // trim: another call is needed
+
+	// used by the ack-while-peer-commit-in-fsync section (c09_pair_test.go):
+	// post states what a successful acknowledgement of this op promises about the durable
+	// state, as a predicate over a reference model (afterOp1: the model already contains
+	// the peer operation). It is only consulted for acknowledgements that change nothing
+	// (already-satisfied no-ops, durable reads); state-changing ops are checked by position.
+	post func(m *vc09Model, afterOp1 bool) bool
+	// told renders what the op reported (reads), for messages.
+	told func() string
+	// again re-submits the very same request (a retry of an exact append).
+	again func(s *vc09Store) error
 }
 
 func (o *vc09Op) name() string { return o.kind + ":" + vc09Name[o.ci] }
@@ -87,20 +98,22 @@ func (m *vc09Model) prepXhw(ci int) *vc09Op {
 	rec1, row1, q1 := vc09MakeRecord(ci, base+1, id1, false)
 	rec2, row2, q2 := vc09MakeRecord(ci, base+2, id2, true)
 	man, entries := m.seal(ci, base, c.maxTerm(), []quorumlog.Record{q1, q2})
+	submit := func(s *vc09Store, want quorumlog.AppendOutcome) error {
+		res := StoreAppendBatch(context.Background(), []AppendBatchItem{{
+			Store: s.stores[ci], Records: []channel.Record{rec1, rec2}, Committed: base,
+			Class: AppendBatchClassLeaderQuorum, ExactBaseOffset: true, ExpectedBaseOffset: base, Proposal: man,
+		}})
+		if len(res) != 1 {
+			return fmt.Errorf("StoreAppendBatch returned %d results", len(res))
+		}
+		if res[0].Err == nil && (res[0].Outcome != want || res[0].LastOffset != base+2) {
+			return fmt.Errorf("exact append: outcome %d last %d, model outcome %d last %d", res[0].Outcome, res[0].LastOffset, want, base+2)
+		}
+		return res[0].Err
+	}
 	return &vc09Op{kind: "xhw", ci: ci, predictOK: ok, changes: true,
-		run: func(s *vc09Store) error {
-			res := StoreAppendBatch(context.Background(), []AppendBatchItem{{
-				Store: s.stores[ci], Records: []channel.Record{rec1, rec2}, Committed: base,
-				Class: AppendBatchClassLeaderQuorum, ExactBaseOffset: true, ExpectedBaseOffset: base, Proposal: man,
-			}})
-			if len(res) != 1 {
-				return fmt.Errorf("StoreAppendBatch returned %d results", len(res))
-			}
-			if res[0].Err == nil && (res[0].Outcome != quorumlog.AppendOutcomeDurable || res[0].LastOffset != base+2) {
-				return fmt.Errorf("exact append: outcome %d last %d, model durable last %d", res[0].Outcome, res[0].LastOffset, base+2)
-			}
-			return res[0].Err
-		},
+		run:   func(s *vc09Store) error { return submit(s, quorumlog.AppendOutcomeDurable) },
+		again: func(s *vc09Store) error { return submit(s, quorumlog.AppendOutcomeAlreadyDurable) },
 		apply: func(m *vc09Model) {
 			c := &m.Ch[ci]
 			c.Rows = append(c.Rows, row1, row2)
@@ -189,8 +202,12 @@ func (m *vc09Model) prepBulk(ci int, n int) *vc09Op {
 
 // prepCkp: checkpoint the whole log (direct synchronous batch / coordinator batch lane).
 func (m *vc09Model) prepCkp(ci int, viaCoordinator bool) *vc09Op {
+	return m.prepCkpTarget(ci, viaCoordinator, m.Ch[ci].LEO)
+}
+
+// prepCkpTarget: advance the checkpoint HW monotonically to hw.
+func (m *vc09Model) prepCkpTarget(ci int, viaCoordinator bool, hw uint64) *vc09Op {
 	c := &m.Ch[ci]
-	hw := c.LEO
 	change := !c.HasCkpt || hw > c.HW
 	kind := "ckp"
 	if viaCoordinator {
@@ -212,7 +229,49 @@ func (m *vc09Model) prepCkp(ci int, viaCoordinator bool) *vc09Op {
 				c := &m.Ch[ci]
 				c.HasCkpt, c.HW, c.Catalog = true, hw, true
 			}
-		}}
+		},
+		post: func(m *vc09Model, _ bool) bool { return m.Ch[ci].HasCkpt && m.Ch[ci].HW >= hw },
+		told: func() string { return fmt.Sprintf("checkpoint HW >= %d", hw) }}
+}
+
+// prepFetchHW: follower apply that carries no records, only the leader HW (single-store
+// entry point / cross-channel batch entry point).
+func (m *vc09Model) prepFetchHW(ci int, batch bool, hw uint64) *vc09Op {
+	c := &m.Ch[ci]
+	change := hw > c.HW
+	ok := hw <= c.LEO
+	leo := c.LEO
+	kind := "fhw"
+	if batch {
+		kind = "fhb"
+	}
+	return &vc09Op{kind: kind, ci: ci, predictOK: ok, changes: change,
+		run: func(s *vc09Store) error {
+			req := channel.ApplyFetchStoreRequest{CheckpointHW: &hw}
+			var got uint64
+			var err error
+			if batch {
+				res := StoreApplyFetchTrustedBatch(context.Background(), []ApplyFetchBatchItem{{Store: s.stores[ci], Request: req}})
+				if len(res) != 1 {
+					return fmt.Errorf("StoreApplyFetchTrustedBatch returned %d results", len(res))
+				}
+				got, err = res[0].LEO, res[0].Err
+			} else {
+				got, err = s.stores[ci].StoreApplyFetchTrusted(req)
+			}
+			if err == nil && got != leo {
+				return fmt.Errorf("record-less apply returned leo %d, model %d", got, leo)
+			}
+			return err
+		},
+		apply: func(m *vc09Model) {
+			if change {
+				c := &m.Ch[ci]
+				c.HasCkpt, c.HW, c.Catalog = true, hw, true
+			}
+		},
+		post: func(m *vc09Model, _ bool) bool { return hw == 0 || (m.Ch[ci].HasCkpt && m.Ch[ci].HW >= hw) },
+		told: func() string { return fmt.Sprintf("checkpoint HW >= %d", hw) }}
 }
 
 // prepTrn: follower-style suffix truncation of everything above the committed HW
@@ -349,7 +408,12 @@ func (m *vc09Model) prepAdopt(ci int, through uint64) *vc09Op {
 			if c.RMax > c.LEO {
 				c.LEO = c.RMax
 			}
-		}}
+		},
+		post: func(m *vc09Model, _ bool) bool {
+			c := &m.Ch[ci]
+			return c.HasRet && c.Local >= through && c.HasCursor && c.Cursor >= through
+		},
+		told: func() string { return fmt.Sprintf("retention boundary and replay cursor >= %d", through) }}
 }
 
 // prepTrim: one bounded physical trim batch (MaxMessages:1).
